@@ -281,7 +281,7 @@ pub fn scenario_threads(id: u64, seed: u64) -> Vec<Value> {
         let spin = tr.chance(1, 2);
         handles.push(std::thread::spawn(move || {
             let mut log: Vec<Value> = Vec::new();
-            let mut held: Vec<(String, Held)> = Vec::new();
+            let mut held: Vec<(String, Held, u64)> = Vec::new();
             for op in 0..nops {
                 let kind: &str = if Some(op) == shut_at { "exit" } else { *tr.pick(&["status", "status", "reply", "sub", "mon", "reg", "fire", "fire"]) };
                 let k = th * 1000 + op;
@@ -336,7 +336,7 @@ pub fn scenario_threads(id: u64, seed: u64) -> Vec<Value> {
                             fname = "browse";
                             res = res_name(&rr);
                             if let Ok(Ok(rx)) = rr {
-                                held.push(("browse".into(), Held::Browse(rx)));
+                                held.push(("browse".into(), Held::Browse(rx), s0));
                             }
                         } else {
                             let h = format!("somehost{}.local.", k);
@@ -344,7 +344,7 @@ pub fn scenario_threads(id: u64, seed: u64) -> Vec<Value> {
                             fname = "resolve_hostname";
                             res = res_name(&rr);
                             if let Ok(Ok(rx)) = rr {
-                                held.push(("resolve_hostname".into(), Held::Host(rx)));
+                                held.push(("resolve_hostname".into(), Held::Host(rx), s0));
                             }
                         }
                         reply = "none";
@@ -354,7 +354,7 @@ pub fn scenario_threads(id: u64, seed: u64) -> Vec<Value> {
                         fname = "monitor";
                         res = res_name(&rr);
                         if let Ok(Ok(rx)) = rr {
-                            held.push(("monitor".into(), Held::Mon(rx)));
+                            held.push(("monitor".into(), Held::Mon(rx), s0));
                         }
                         reply = "none";
                     }
@@ -388,9 +388,9 @@ pub fn scenario_threads(id: u64, seed: u64) -> Vec<Value> {
             }
             // a client that keeps listening: every channel must close once the daemon is gone
             let deadline = Instant::now() + Duration::from_millis(8000);
-            for (f, h) in &held {
+            for (f, h, by) in &held {
                 let (kinds, closed) = drain_held(h, deadline);
-                log.push(json!({"e": "tchan", "thr": th, "fn": f, "events": kinds, "closed": closed}));
+                log.push(json!({"e": "tchan", "thr": th, "fn": f, "events": kinds, "closed": closed, "by": by}));
             }
             let _ = tx.send((th, log));
         }));
@@ -450,7 +450,7 @@ pub fn scenario_threads(id: u64, seed: u64) -> Vec<Value> {
         sim.log(l);
     }
     sim.log(json!({"e": "tfinal", "dead": dead, "threads": nthr, "finished": done, "warm": warm, "warm_fnk": warm_fnk,
-        "byes": byes, "announced": anns.into_iter().collect::<Vec<_>>(), "drained_us": ns(drained_at), "dead_us": ns(dead_at)}));
+        "byes": byes, "announced": anns.into_iter().collect::<Vec<_>>(), "drain_us": ns(world.exit_drain_begun(dd)), "drained_us": ns(drained_at), "dead_us": ns(dead_at)}));
     for h in handles {
         if h.is_finished() {
             let _ = h.join();
